@@ -957,6 +957,40 @@ func genericRecGuard(scc []*ssa.Function) (string, bool) {
 					}
 				}
 			})
+			// a counter that goes down: passed on as p-k and the call made only where p is still positive
+			for _, g := range scc {
+				down := false
+				eng.Instrs(g, false, func(i ssa.Instruction) {
+					ci, ok := i.(ssa.CallInstruction)
+					if !ok || eng.StaticCallee(ci) != f || g != f {
+						return
+					}
+					args := eng.ArgsWithRecv(ci)
+					if pi >= len(args) {
+						return
+					}
+					b, ok := args[pi].(*ssa.BinOp)
+					if !ok || b.Op != token.SUB || b.X != ssa.Value(p) {
+						return
+					}
+					if k, isC := eng.ConstInt(b.Y); !isC || k < 1 {
+						return
+					}
+					if eng.GuardedBy(g, ci.Block(), func(fc eng.Fact) bool {
+						op, x, y, ok := fc.Cmp()
+						if !ok || x != ssa.Value(p) {
+							return false
+						}
+						z, isC := eng.ConstInt(y)
+						return isC && ((op == token.NEQ && z == 0) || (op == token.GTR && z >= 0) || (op == token.GEQ && z >= 1))
+					}) {
+						down = true
+					}
+				})
+				if down {
+					return "counter parameter " + p.Name() + " of " + eng.FuncName(f) + " is tested against 0 and passed on decreased", true
+				}
+			}
 			if !compared {
 				continue
 			}
